@@ -310,8 +310,8 @@ def numgrad(fn, x, h=None, replace_neg_inf=True):
         if np.any(np.isneginf(f)):
             return np.zeros(dim)
 
-    grad = np.gradient(f, *h, axis=0)
-    return grad[1, :]
+    # Central differences; h holds one stepsize or one stepsize per dimension
+    return (f[2, :] - f[0, :]) / (2 * h)
 
 
 def sample_object_to_dict(data, elem, skip=''):
